@@ -35,7 +35,8 @@ ASSUMPTIONS = ["engine streams: all ports TS[int] (the intern streams add TS[flo
 TECHNIQUE = ("Lean 4 proof of the interning table (equal keys share, different keys differ, sinks never merge) + rank/scan "
              "order theorems + differential correspondence (the model ranks with the Kahn model and must match every statement "
              "order exactly) + cross-order monitor")
-LEVEL_TEXT = ("Kernel-checked for every key type and declaration list: equal keys denote one node, different keys different nodes, "
+LEVEL_TEXT = ("INSIDE SUB-GRAPH BODIES (Props/C06BodyKey.lean, streams bodykey-*): the source key as coded - kind, peered path, boundary argument index or LOCAL capture index, boundary path, captured flag, capture table built statement by statement - never identifies a declared argument with a captured outer port (arg_capture_distinct; it would once the flag is forgotten: kindless_key_merges), two declarations of a body denote one node iff they have the same definition, scalars and input by input the same kind of source, index or outer port, path and producer (body_same_iff, body_decl_same_iff), and the node partition and every recorder stream are the same for every admissible statement order and import prologue (body_order_irrelevant, body_obs_order_irrelevant). "
+              "Kernel-checked for every key type and declaration list: equal keys denote one node, different keys different nodes, "
               "sinks always get their own node (also identical ones); the partition of declarations into nodes is the same for "
               "every admissible statement order (wireL_order_irrelevant). Kernel-checked for every flat dataflow program with arbitrary "
               "node functions (reading only their producers and themselves, re-arming only in the future) run by the generic scan model "
